@@ -81,6 +81,63 @@ CHECKS.update({
         design_ref="DESIGN.md §4 C14"),
 })
 
+SER_NOTE = ("Trusted: Coq kernel; the hand-written model of serialization/__init__.py + methods.py (coq/Ser/Model.v) whose faithfulness "
+            "is checked on every run by differential correspondence (implementation vs model evaluated by vm_compute) on generated "
+            "universes, well-typed and ill-typed values and options; floats restricted to the exact fragment q/4; Dict keys to "
+            "str-like types. Not in the model: conversions, flattened fields, discriminators, enums with non-primitive values, "
+            "check_type/fall_back_on_any. No axioms.")
+
+CHECKS.update({
+    "C04": dict(
+        text="Coq theorems about the serialization model: a field / serialized method / TypedDict key is omitted exactly under the "
+             "documented rule (C04_field_omission_rule, C04_method_omission_rule, C04_typed_dict_field_rule) for every object, option "
+             "set and field description; the output of sexec(scompile t) is compared with the declarative image (Ser/Spec.v: typed "
+             "image, is_json) by vm_compute on every case the implementation ran. Tie: correspondence of serialize() with the model "
+             "and model-free checks (output is JSON data, json.dumps succeeds, omission rule per field).",
+        note=SER_NOTE, technique="Coq proof (omission rules) + differential correspondence serialize vs model vs image spec",
+        design_ref="DESIGN.md §4 C04"),
+    "C15": dict(
+        text="Coq theorems about a model of fields.py (with_fields_set's __init__/__setattr__ wrappers, set_fields/unset_fields, "
+             "dataclasses.replace, deserialization) as a state machine: fields_set after any sequence of operations is exactly the "
+             "set the documentation gives (C15 theorems in Props/C15.v), exclude_unset serializes exactly that set. Tie: random "
+             "operation histories run on generated classes and on the model (vm_compute).",
+        note="Trusted: Coq kernel; model of apischema/fields.py validated by history correspondence; dataclass machinery (replace, "
+             "InitVar, __post_init__) exercised, not modelled. No axioms.",
+        technique="Coq proof (invariant over operation histories) + history correspondence",
+        design_ref="DESIGN.md §4 C15"),
+    "C09": dict(
+        text="Coq theorems over wiring tables regenerated from the source on every run (which registry mutation / settings "
+             "assignment resets the caches, which functions are cached): with the wiring as read from the code no cached result "
+             "can be stale after a mutation (C09_never_stale, C09_wiring_table_sound, C09_cached_functions_registered). Tie: "
+             "translator (ast, fail-closed) + histories of mutations/observations run warm vs cold-start in subprocesses.",
+        note="Trusted: Coq kernel; the ast translator harness/tables.py (fail-closed on shapes it does not know); the list of "
+             "mutating operations / observations in the history alphabet is hand-written. No axioms.",
+        technique="Coq proof over translated wiring + warm/cold history differential",
+        design_ref="DESIGN.md §4 C09"),
+    "C10": dict(
+        text="Coq theorems about a model of validation/validators.py validate() and the gate in ObjectMethod.deserialize: validate "
+             "terminates and equals one pass in declaration order with discards (C10_validate_terminates_and_is_one_pass), the gate "
+             "is exactly the runnable filter, executed validators all have valid inputs, all runnable validators execute. Tie: "
+             "generated classes with validators whose side effects log invocation; log compared with the model (vm_compute).",
+        note="Trusted: Coq kernel; model of the validator gate validated by correspondence on generated classes (dependencies read "
+             "by apischema's own bytecode analysis are exercised, not modelled). No axioms.",
+        technique="Coq proof (termination + gate characterisation) + invocation-log correspondence",
+        design_ref="DESIGN.md §4 C10"),
+    "C20": dict(
+        text="Coq: a model of RecursiveChecker.visit over abstract type graphs and a small-step machine interleaving several checkers "
+             "on the shared cache; with analyses serialized (the lock of is_recursive) every sequence of <=3 analyses on every "
+             "graph of <=3 nodes leaves a sound, cycle-cutting, complete cache (bounded-exhaustive, bound in the statement), the "
+             "locked machine equals the sequential visit, the unlocked interleaving is refuted with a witness, and fill-if-absent "
+             "caches of deterministic functions never change later reads (unbounded). Tie: the real recursion cache is compared "
+             "with the model on generated class graphs; schedules are explored on the implementation (1 us preemption, injected "
+             "yields) and every result compared with a sequential cold run.",
+        note="Partial: the theorem covers the recursion-analysis and fill-if-absent logic; CPython thread scheduling, lru_cache "
+             "internals and interleavings inside C calls are runtime behaviour the model cannot exhibit and are only sampled by "
+             "the schedule exploration. No axioms.",
+        technique="Coq proof (bounded-exhaustive + unbounded fill lemma) + model/implementation cache correspondence + schedule exploration",
+        design_ref="DESIGN.md §4 C20"),
+})
+
 NOT_YET = {}
 
 
